@@ -86,7 +86,7 @@ def generate(seed, tier):
     n = n_ops(spec)
     mk = lambda k: [["dispatch", rng.randrange(64), rng.randrange(64), int(rng.random() < 0.5)] for _ in range(k)]  # noqa: E731
     cfg = {"instance": spec, "filter": names, "filter_style": style, "observers": mark_manual(stream(seed, "c12-manual"), gen_observer_set(rng), 0.06)}
-    if rng.random() < 0.15:
+    if rng.random() < 0.35:
         # world A starts with another filter, is looked at, and gets the configured filter assigned through the
         # public attribute before its first reset; from that reset on it must equal the twin built with it
         cfg["first_filter"] = rng.choice([[], ["non_idle_machines"], ["dominated_operations"], ["non_immediate_operations"]])
